@@ -9,6 +9,11 @@ Open known findings are keyed by INPUT CLASS and EXECUTION MODE only (never by w
   D17   sqrt_symm  AND  |lambda_min| <= 8 eps ||A||  AND  not axis-aligned (either mode)            [DESIGN section 2]
   D17b  the same for axis-aligned rank-deficient tensors (found here: e.g. diag(0.0369, 0, 0.0146) -> NaN, single call)
   D21   pow_symm JVP  AND  batched  AND  exactly repeated eigenvalues in an axis-aligned tensor
+  D23   any eigen-based clause AND the three diagonal entries are exactly equal AND one or two off-diagonals are non-zero
+        (a I + shear, incl. pure shear and two-shear "hollow" tensors: zero-diagonal deviator with zero determinant):
+        the Wilkinson step uses sign(b) = 0 at b == 0
+  D24   single compiled call AND circulant structure (equal diagonal, equal |off-diagonals|): NaN eigenvectors for some
+  D8b   batched AND an exact structural tie of two pivot row norms (tensor symmetric under an axis exchange) AND not axis-aligned
   D22   LinAlg.logm_iss: honest-failure signature "result equals the 5-point-capped Pade evaluation" (see run_dense)
 Everything else must hold.
 """
@@ -44,6 +49,9 @@ MAX_VACUOUS_FRACTION = 0.2
 WATCHDOG_S = {"quick": 2400, "thorough": 4 * 3600}
 
 KEY_D8 = "C12/D8/batched-neardegenerate-nonaxis"
+KEY_D8B = "C12/D8b/batched-exact-pivot-tie-nonaxis"
+KEY_D23 = "C12/D23/eig-zero-deviator-diagonal"
+KEY_D24 = "C12/D24/eig-single-call-circulant-nan"
 KEY_D17 = "C12/D17/sqrt-singular-psd-nonaxis"
 KEY_D17B = "C12/D17b/sqrt-singular-psd-axis-aligned"
 KEY_D21 = "C12/D21/pow-jvp-batched-exactly-repeated"
@@ -70,6 +78,18 @@ REQUIRED = {
         "detpIm1.checked": 200, "inv.checked": 100, "polar.checked": 100,
         "dense.sqrtm.checked": 40, "dense.logm.checked": 40, "dense.nonnormal": 15, "dense.logm.known_class_D22": 10, "dense.scaled": 10,
         "mode:single": 50, "mode:batched": 50, "batch_size:8": 10,
+        "surface:rr_exactly_zero(c3==0)/eig": 100, "surface:rr_exactly_zero(c3==0)/fun_exp": 60, "surface:rr_exactly_zero(c3==0)/fun_pd": 30,
+        "surface:rr_exactly_zero(c3==0)/jvp": 5,
+        "exact_rational:det_dev_zero/eig/single": 100, "exact_rational:det_dev_zero/eig/batched": 100,
+        "exact_rational:det_dev_zero/fun_pd/single": 60, "exact_rational:det_dev_zero/fun_exp/batched": 60,
+        "exact_rational:det_dev_zero_and_rr_zero_in_float/eig": 100, "exact_rational:det_dev_zero_nonaxis/eig": 60,
+        "surface:isotropic(c2==0)/eig": 60, "surface:trace_exactly_zero/eig": 100, "surface:deviator_diagonal_zero/eig": 30,
+        "surface:pivot_tie_k0==k1/eig": 30, "surface:pivot_tie_k1==k2/eig": 30, "surface:pivot_tie_k0==k2/eig": 30,
+        "surface:zero_offdiagonals=1/eig": 30, "surface:zero_offdiagonals=2/eig": 100, "surface:zero_offdiagonals=3/eig": 100,
+        "exact:mean_diag/eig/single": 30, "exact:mean_diag/eig/batched": 30, "exact:traceless_inplane/eig/single": 30,
+        "exact:traceless_inplane/eig/batched": 30, "exact:inplane_mean_out/eig/single": 30, "exact:mean_rotated/eig/single": 30,
+        "exact:pure_shear/eig/single": 30, "exact:circulant/eig/single": 30, "exact:swap_sym/eig/batched": 30,
+        "eig.known_class_D23": 30, "eig.known_class_D24": 10, "eig.known_class_D8b": 10,
     },
 }
 
@@ -109,6 +129,11 @@ def build_cases(tier, seed):
                 for spec in G.SPECTRA_DEFICIENT:
                     i += 1
                     add("fun_psd", spec, orient, mode, i)
+            # exact-degeneracy surfaces of the algorithm's branch variables (dyadic entries, power-of-two scales)
+            for kind in G.EXACT_KINDS:
+                for fam in ("eig", "fun_pd", "fun_exp", "jvp"):
+                    i += 1
+                    add(fam, "exact:" + kind, "exact", mode, i)
             for k in range(6 if quick else 12):
                 add("helpers", "any", "any", mode, rep * 100 + k)
         for n in range(2, 11):
@@ -196,7 +221,25 @@ def _classes(A, mode):
     lam, nrm, relgap, axis = R.spectral_info(A)
     d8 = (mode == "batched") & (relgap < 1e-3) & (~axis)
     singular = (onp.abs(lam[:, 0]) <= 8 * EPS * nrm) & (nrm > 0)
-    return {"lam": lam, "nrm": nrm, "relgap": relgap, "axis": axis, "d8": d8, "singular": singular}
+    # exact-degeneracy surfaces of the routine's branch variables (float64 replica of its first stage + structure)
+    surf = R.branch_surfaces(onp.where(onp.isfinite(A), A, 0.0))
+    d23 = surf["dev_diag_zero"]                                   # either mode
+    d24 = (mode == "single") & surf["circulant"]
+    d8b = (mode == "batched") & surf["pivot_tie"] & (~axis)
+    known = onp.array([KEY_D23 if a else (KEY_D24 if b else (KEY_D8 if c else (KEY_D8B if d else None)))
+                       for a, b, c, d in zip(d23, d24, d8, d8b)], dtype=object)
+    return {"lam": lam, "nrm": nrm, "relgap": relgap, "axis": axis, "d8": d8, "singular": singular, "surf": surf,
+            "d23": d23, "d24": d24, "d8b": d8b, "known": known, "anyknown": onp.array([k is not None for k in known])}
+
+
+def merge_known(*ks):
+    """First non-None mechanism key per element over several classified inputs of one clause."""
+    out = onp.array(ks[0], dtype=object).copy()
+    for k in ks[1:]:
+        for i in range(len(out)):
+            if out[i] is None and k[i] is not None:
+                out[i] = k[i]
+    return out
 
 
 def judge(res, clause, err, allowed, known=None, key=None, detail=None, tag=None):
@@ -262,6 +305,24 @@ def _count_common(res, case, A, scales, cl):
         res.count("batch_size:%d" % case["B"])
     iso = (cl["relgap"] == 0) & (onp.abs(cl["lam"][:, 0] - cl["lam"][:, 2]) == 0)
     res.nontrivial = bool((~iso).any())
+    # census of the exact-degeneracy surfaces of the routine's branch variables the inputs sit on
+    sf = cl["surf"]
+    fam = case["family"]
+    res.count("surface:rr_exactly_zero(c3==0)/" + fam, int(sf["c3_zero"].sum()))
+    res.count("surface:isotropic(c2==0)/" + fam, int(sf["c2_zero"].sum()))
+    res.count("surface:trace_exactly_zero/" + fam, int(sf["trace_zero"].sum()))
+    res.count("surface:deviator_diagonal_zero/" + fam, int(sf["dev_diag_zero"].sum()))
+    res.count("surface:pivot_tie_k0==k1/" + fam, int((sf["tie01"] & ~sf["c2_zero"]).sum()))
+    res.count("surface:pivot_tie_k1==k2/" + fam, int((sf["tie12"] & ~sf["c2_zero"]).sum()))
+    res.count("surface:pivot_tie_k0==k2/" + fam, int((sf["tie02"] & ~sf["c2_zero"]).sum()))
+    for k in (1, 2, 3):
+        res.count("surface:zero_offdiagonals=%d/%s" % (k, fam), int((sf["n_zero_offdiag"] == k).sum()))
+    if case["spec"].startswith("exact:"):
+        ex = R.exact_det_dev_zero(A)
+        res.count("exact:%s/%s/%s" % (case["spec"][6:], fam, case["mode"]), len(A))
+        res.count("exact_rational:det_dev_zero/" + fam + "/" + case["mode"], int(ex.sum()))
+        res.count("exact_rational:det_dev_zero_and_rr_zero_in_float/" + fam, int((ex & sf["c3_zero"]).sum()))
+        res.count("exact_rational:det_dev_zero_nonaxis/" + fam, int((ex & ~cl["axis"]).sum()))
 
 
 def run_eig(case, res):
@@ -279,11 +340,14 @@ def run_eig(case, res):
     lam, V = evaluate("eig", mode, case["B"], (A,))
     res.count("eig.tensors:" + mode, N)
     res.count("eig.known_class_D8", int(cl["d8"].sum()))
-    res.count("eig.must_hold:" + mode, int((~cl["d8"]).sum()))
+    res.count("eig.known_class_D8b", int((cl["known"] == KEY_D8B).sum()))
+    res.count("eig.known_class_D23", int(cl["d23"].sum()))
+    res.count("eig.known_class_D24", int(cl["d24"].sum()))
+    res.count("eig.must_hold:" + mode, int((~cl["anyknown"]).sum()))
     sc = cl["nrm"]
     fin = onp.isfinite(lam).all(axis=1) & onp.isfinite(V).all(axis=(1, 2))
     det = _mat_detail(A, {"relgap": cl["relgap"], "lam": lam})
-    judge(res, "eig.finite", (~fin).astype(float), 0.5, cl["d8"], KEY_D8, det)
+    judge(res, "eig.finite", (~fin).astype(float), 0.5, cl["known"], None, det)
     with onp.errstate(all="ignore"):
         rec = R.recompose(V, lam)
         e_rec = R.maxabs(rec - R.sym(A))
@@ -294,10 +358,10 @@ def run_eig(case, res):
     e_orth = onp.where(fin, e_orth, onp.inf)
     e_val = onp.where(fin, e_val, onp.inf)
     tiny = onp.finfo(float).tiny
-    judge(res, "eig.reconstruct", e_rec, TOL_EIG * sc + tiny, cl["d8"], KEY_D8, det)
-    judge(res, "eig.orthonormal", e_orth, TOL_EIG, cl["d8"], KEY_D8, det)
-    judge(res, "eig.values_vs_eigvalsh", e_val, TOL_EIG * sc + tiny, cl["d8"], KEY_D8, det)
-    judge(res, "eig.ascending", (~(asc | ~fin)).astype(float), 0.5, cl["d8"], KEY_D8, det)
+    judge(res, "eig.reconstruct", e_rec, TOL_EIG * sc + tiny, cl["known"], None, det)
+    judge(res, "eig.orthonormal", e_orth, TOL_EIG, cl["known"], None, det)
+    judge(res, "eig.values_vs_eigvalsh", e_val, TOL_EIG * sc + tiny, cl["known"], None, det)
+    judge(res, "eig.ascending", (~(asc | ~fin)).astype(float), 0.5, cl["known"], None, det)
 
 
 def _rot_batch(rng, N):
@@ -320,53 +384,53 @@ def run_fun_pd(case, res):
     _count_common(res, case, A, scales, cl)
     sc = cl["nrm"]
     cond = cl["lam"][:, 2] / cl["lam"][:, 0]
-    d8 = cl["d8"]
+    d8 = cl["known"]
     det = _mat_detail(A, {"relgap": cl["relgap"]})
     tiny = onp.finfo(float).tiny
     with onp.errstate(all="ignore"):
         # sqrt
         (S,) = evaluate("sqrt", mode, B, (A,))
         res.count("fun.sqrt.tensors", N)
-        judge(res, "sqrt.squares_to_A", R.maxabs(S @ S - A), TOL_FUN * sc + tiny, d8, KEY_D8, det)
-        judge(res, "sqrt.symmetric", R.maxabs(S - onp.swapaxes(S, 1, 2)), TOL_FUN * onp.sqrt(sc) + tiny, d8, KEY_D8, det)
+        judge(res, "sqrt.squares_to_A", R.maxabs(S @ S - A), TOL_FUN * sc + tiny, d8, None, det)
+        judge(res, "sqrt.symmetric", R.maxabs(S - onp.swapaxes(S, 1, 2)), TOL_FUN * onp.sqrt(sc) + tiny, d8, None, det)
         # log and exp(log A) = A ; log_sqrt = log/2
         (L,) = evaluate("log", mode, B, (A,))
         res.count("fun.log.tensors", N)
         Lref = R.fun_ref(A, "log")
         lscale = onp.maximum(1.0, R.maxabs(Lref))
         # eigenvalue errors eps ||A|| become eps cond in log(lambda_min)
-        judge(res, "log.vs_reference", R.maxabs(L - Lref), TOL_FUN * cond * lscale, d8, KEY_D8, det)
+        judge(res, "log.vs_reference", R.maxabs(L - Lref), TOL_FUN * cond * lscale, d8, None, det)
         Lc = _classes(Lref, mode)          # class of the intermediate, from the reference value (the library's may be NaN)
         (EL,) = evaluate("exp", mode, B, (L,))
-        judge(res, "exp_of_log_is_identity", R.maxabs(EL - A), TOL_FUN * sc * lscale + tiny, d8 | Lc["d8"], KEY_D8, det)
+        judge(res, "exp_of_log_is_identity", R.maxabs(EL - A), TOL_FUN * sc * lscale + tiny, merge_known(d8, Lc["known"]), None, det)
         (LS,) = evaluate("logsqrt", mode, B, (A,))
-        judge(res, "log_sqrt_is_half_log", R.maxabs(LS - 0.5 * Lref), TOL_FUN * cond * lscale, d8, KEY_D8, det)
+        judge(res, "log_sqrt_is_half_log", R.maxabs(LS - 0.5 * Lref), TOL_FUN * cond * lscale, d8, None, det)
         # pow: A^(1/2)^2 = A, A^m A^-m = I, A^2 = A A, A^1 = A, A^m vs reference
         res.count("fun.pow.tensors", N)
         (Ph,) = evaluate("pow", mode, B, (A,), (0.5,))
-        judge(res, "pow.half_squares_to_A", R.maxabs(Ph @ Ph - A), TOL_FUN * sc + tiny, d8, KEY_D8, det)
+        judge(res, "pow.half_squares_to_A", R.maxabs(Ph @ Ph - A), TOL_FUN * sc + tiny, d8, None, det)
         (P2,) = evaluate("pow", mode, B, (A,), (2.0,))
-        judge(res, "pow.two_is_AA", R.maxabs(P2 - A @ A), TOL_FUN * sc * sc + tiny, d8, KEY_D8, det)
+        judge(res, "pow.two_is_AA", R.maxabs(P2 - A @ A), TOL_FUN * sc * sc + tiny, d8, None, det)
         (P1,) = evaluate("pow", mode, B, (A,), (1.0,))
-        judge(res, "pow.one_is_A", R.maxabs(P1 - A), TOL_FUN * sc + tiny, d8, KEY_D8, det)
+        judge(res, "pow.one_is_A", R.maxabs(P1 - A), TOL_FUN * sc + tiny, d8, None, det)
         m = [1.0 / 3.0, 1.7, 0.25, -0.5, -1.0][int(rng.integers(5))]
         (Pm,) = evaluate("pow", mode, B, (A,), (m,))
         (Pn,) = evaluate("pow", mode, B, (A,), (-m,))
-        judge(res, "pow.m_times_minus_m_is_I", R.maxabs(Pm @ Pn - onp.eye(3)), TOL_FUN * cond ** abs(m), d8, KEY_D8, det, tag={"m": m})
+        judge(res, "pow.m_times_minus_m_is_I", R.maxabs(Pm @ Pn - onp.eye(3)), TOL_FUN * cond ** abs(m), d8, None, det, tag={"m": m})
         Pref = R.fun_ref(A, "pow", m)
-        judge(res, "pow.vs_reference", R.maxabs(Pm - Pref), TOL_FUN * R.maxabs(Pref) * cond + tiny, d8, KEY_D8, det, tag={"m": m})
+        judge(res, "pow.vs_reference", R.maxabs(Pm - Pref), TOL_FUN * R.maxabs(Pref) * cond + tiny, d8, None, det, tag={"m": m})
         # rotation equivariance on moderately conditioned tensors
         Q = _rot_batch(rng, N)
         A2 = R.sym(_conj(Q, A))
         c2 = _classes(A2, mode)
-        k2 = d8 | c2["d8"]
+        k2 = merge_known(d8, c2["known"])
         res.count("fun.equivariance.tensors", N)
         (S2,) = evaluate("sqrt", mode, B, (A2,))
-        judge(res, "sqrt.equivariant", R.maxabs(S2 - _conj(Q, S)), TOL_FUN * onp.sqrt(sc) * onp.sqrt(cond) + tiny, k2, KEY_D8, det)
+        judge(res, "sqrt.equivariant", R.maxabs(S2 - _conj(Q, S)), TOL_FUN * onp.sqrt(sc) * onp.sqrt(cond) + tiny, k2, None, det)
         (L2,) = evaluate("log", mode, B, (A2,))
-        judge(res, "log.equivariant", R.maxabs(L2 - _conj(Q, L)), TOL_FUN * cond * lscale, k2, KEY_D8, det)
+        judge(res, "log.equivariant", R.maxabs(L2 - _conj(Q, L)), TOL_FUN * cond * lscale, k2, None, det)
         (Pm2,) = evaluate("pow", mode, B, (A2,), (m,))
-        judge(res, "pow.equivariant", R.maxabs(Pm2 - _conj(Q, Pm)), TOL_FUN * R.maxabs(Pref) * cond + tiny, k2, KEY_D8, det, tag={"m": m})
+        judge(res, "pow.equivariant", R.maxabs(Pm2 - _conj(Q, Pm)), TOL_FUN * R.maxabs(Pref) * cond + tiny, k2, None, det, tag={"m": m})
 
 
 def run_fun_psd(case, res):
@@ -387,7 +451,7 @@ def run_fun_psd(case, res):
     # D17/D17b are fixed in /repo (aeaad2d): a batched rank-deficient tensor in a rotated frame whose zero eigenvalues form a
     # repeated pair is the open D8 class (the eigen-decomposition itself is wrong there), so D8 takes precedence; every other
     # singular PSD input carries the (fixed) D17 keys, i.e. must hold.
-    known = onp.array([KEY_D8 if c else (KEY_D17 if a else (KEY_D17B if b else None)) for a, b, c in zip(d17, d17b, cl["d8"])], dtype=object)
+    known = onp.array([c if c is not None else (KEY_D17 if a else (KEY_D17B if b else None)) for a, b, c in zip(d17, d17b, cl["known"])], dtype=object)
     key_of = None
     res.count("sqrt.known_class_D17", int(d17.sum()))
     res.count("sqrt.known_class_D17b", int(d17b.sum()))
@@ -412,7 +476,7 @@ def run_fun_exp(case, res):
     A, lams, scales = G.make_batch(rng, N, case["spec"], case["orient"], "sym", scale_exp=(-6.0, 0.7))
     cl = _classes(A, mode)
     _count_common(res, case, A, scales, cl)
-    d8 = cl["d8"]
+    d8 = cl["known"]
     det = _mat_detail(A, {"relgap": cl["relgap"]})
     res.count("fun.exp.tensors", N)
     with onp.errstate(all="ignore"):
@@ -421,8 +485,8 @@ def run_fun_exp(case, res):
         xs = R.maxabs(Xref)
         # eigenvalue error eps ||A|| scales exp by (1 + eps ||A||)
         amp = onp.maximum(1.0, cl["nrm"])
-        judge(res, "exp.vs_reference", R.maxabs(X - Xref), TOL_FUN * xs * amp, d8, KEY_D8, det)
-        judge(res, "exp.symmetric", R.maxabs(X - onp.swapaxes(X, 1, 2)), TOL_FUN * xs, d8, KEY_D8, det)
+        judge(res, "exp.vs_reference", R.maxabs(X - Xref), TOL_FUN * xs * amp, d8, None, det)
+        judge(res, "exp.symmetric", R.maxabs(X - onp.swapaxes(X, 1, 2)), TOL_FUN * xs, d8, None, det)
         spread = cl["lam"][:, 2] - cl["lam"][:, 0]
         condX = onp.exp(spread)
         Xc = _classes(Xref, mode)
@@ -431,14 +495,14 @@ def run_fun_exp(case, res):
         res.count("log_of_exp.skipped_exp_numerically_singular", int((~okc).sum()))
         if okc.any():
             (LX,) = evaluate("log", mode, B, (X[okc],))
-            judge(res, "log_of_exp_is_identity", R.maxabs(LX - R.sym(A[okc])), (TOL_FUN * condX * amp)[okc], (d8 | Xc["d8"])[okc], KEY_D8,
+            judge(res, "log_of_exp_is_identity", R.maxabs(LX - R.sym(A[okc])), (TOL_FUN * condX * amp)[okc], merge_known(d8, Xc["known"])[okc], None,
                   _mat_detail(A[okc], {"relgap": cl["relgap"][okc]}))
         Q = _rot_batch(rng, N)
         A2 = R.sym(_conj(Q, A))
         c2 = _classes(A2, mode)
         (X2,) = evaluate("exp", mode, B, (A2,))
         res.count("fun.equivariance.tensors", N)
-        judge(res, "exp.equivariant", R.maxabs(X2 - _conj(Q, X)), TOL_FUN * xs * amp, d8 | c2["d8"], KEY_D8, det)
+        judge(res, "exp.equivariant", R.maxabs(X2 - _conj(Q, X)), TOL_FUN * xs * amp, merge_known(d8, c2["known"]), None, det)
 
 
 def run_jvp(case, res):
@@ -464,7 +528,7 @@ def run_jvp(case, res):
             E[i * nd + 7] = rng.standard_normal((3, 3))            # non-symmetric: only its symmetric part may matter
         res.count("jvp.nonsymmetric_direction", N0)
         cl = _classes(A, mode)
-        d8 = cl["d8"]
+        d8 = cl["known"]
         cond = cl["lam"][:, 2] / cl["lam"][:, 0]
         m = None
         if fname == "pow":
@@ -486,13 +550,11 @@ def run_jvp(case, res):
         res.count("jvp.at_gap_below_1e-6", int((sel & (cl["relgap"] < 1e-6) & (cl["relgap"] > 0)).sum()))
         if sel.any():
             det = _mat_detail(A[sel], {"E": E[sel], "relgap": cl["relgap"][sel]})
-            known = d8
-            key = KEY_D8
+            key = None
             if fname == "pow":
                 d21 = (mode == "batched") & cl["axis"] & (cl["relgap"] == 0) & (cl["nrm"] > 0)
                 res.count("jvp.pow.known_class_D21", int((d21 & sel).sum()))
-                known = onp.array([KEY_D8 if a else (KEY_D21 if b else None) for a, b in zip(d8, d21)], dtype=object)[sel]
-                key = None
+                known = onp.array([a if a is not None else (KEY_D21 if b else None) for a, b in zip(d8, d21)], dtype=object)[sel]
             else:
                 known = d8[sel]
             judge(res, "jvp.%s" % fname, err[sel], TOL_JVP * ls[sel] * onp.maximum(1.0, onp.sqrt(cond[sel])) + onp.finfo(float).tiny,
@@ -555,12 +617,12 @@ def run_helpers(case, res):
     det = _mat_detail(P, {"relgap_C": cC["relgap"]})
     with onp.errstate(all="ignore"):
         fs = R.maxabs(P)
-        judge(res, "polar.RU_is_F", R.maxabs(Rr @ Uu - P), 1e-12 * fs * condF, cC["d8"], KEY_D8, det)
-        judge(res, "polar.R_orthogonal", R.maxabs(onp.einsum("nji,njk->nik", Rr, Rr) - onp.eye(3)), 1e-12 * condF ** 2, cC["d8"], KEY_D8, det)
-        judge(res, "polar.U_symmetric", R.maxabs(Uu - onp.swapaxes(Uu, 1, 2)), 1e-12 * fs, cC["d8"], KEY_D8, det)
+        judge(res, "polar.RU_is_F", R.maxabs(Rr @ Uu - P), 1e-12 * fs * condF, cC["known"], None, det)
+        judge(res, "polar.R_orthogonal", R.maxabs(onp.einsum("nji,njk->nik", Rr, Rr) - onp.eye(3)), 1e-12 * condF ** 2, cC["known"], None, det)
+        judge(res, "polar.U_symmetric", R.maxabs(Uu - onp.swapaxes(Uu, 1, 2)), 1e-12 * fs, cC["known"], None, det)
         umin = onp.linalg.eigvalsh(R.sym(onp.where(onp.isfinite(Uu), Uu, 0.0)))[:, 0]
-        judge(res, "polar.U_positive", onp.where(onp.isfinite(Uu).all(axis=(1, 2)), onp.maximum(-umin, 0.0), onp.inf), 1e-12 * fs, cC["d8"], KEY_D8, det)
-        judge(res, "polar.U_squared_is_C", R.maxabs(Uu @ Uu - C), 1e-11 * cC["nrm"], cC["d8"], KEY_D8, det)
+        judge(res, "polar.U_positive", onp.where(onp.isfinite(Uu).all(axis=(1, 2)), onp.maximum(-umin, 0.0), onp.inf), 1e-12 * fs, cC["known"], None, det)
+        judge(res, "polar.U_squared_is_C", R.maxabs(Uu @ Uu - C), 1e-11 * cC["nrm"], cC["known"], None, det)
 
 
 def _pow_jvp_exactly_repeated(case, res, rng):
